@@ -161,6 +161,47 @@ CHECKS.update({
         engine="ruleload"),
 })
 
+CHECKS.update({
+    "C13": dict(
+        category="model_checking",
+        text="Walker.tla models the declaration loop of the astwalk walkers over abstract files (function / body-less function / "
+             "method / other declaration chunks with trigger and scratch-residue flags); Local holds for every file of up to 4 chunks "
+             "under every reordering of the plain functions and every inserted padding chunk, and is refuted when the loop returns "
+             "instead of continuing, when the EnterFunc answer is remembered across declarations, or when scratch is not reset per "
+             "function. The same transformation schemas are applied to the maintainers' example files, cut into chunks that carry "
+             "their `/*! expectation */` lines: reverse, rotate, swaps, move-to-front/back, shuffle, padding with blank lines / var / "
+             "func / type / body-less func / comment before chunks, appended unrelated code, unrelated code re-using the file's type "
+             "names; every variant is re-type-checked and analysed by the real checker and must match its expectations exactly.",
+        design_ref="DESIGN.md section 6 C13",
+        note="Only plain functions move; 2 example directories have no registered checker (reported as uncovered).",
+        technique="TLC over abstract files and transformations + metamorphic replay on the curated examples",
+        engine="locality"),
+    "C14": dict(
+        category="model_checking",
+        text="Params.tla: the flow of an int and a bool parameter through Register/Bind/Parse/Assign/Override/Construct on the CLI, "
+             "analyzer and integrator paths (UsedIsConfigured; 'bools not assigned' refuted) and the documented threshold predicates "
+             "for every (checker, measure, threshold) with Monotone and Boundary. Constructs of measure exactly m are generated for "
+             "the seven numeric parameters and analysed at every threshold through Override (in process) and through the real "
+             "go-critic and analysis binaries (selected by name, by tag and by enable-all); the three must agree with the exported "
+             "predictions and with each other; boolean parameters must change the outcome on discriminating constructs on every "
+             "path; byte sizes quoted in messages are compared with types.Sizes (incl. same-named local types of different size).",
+        design_ref="DESIGN.md section 6 C14",
+        note="ifElseChain / commentedOutCode: only monotone single-step behaviour is required; skipTestFuncs parameters uncovered.",
+        technique="TLA+ flow model + threshold table replayed on the three entry paths",
+        engine="params"),
+    "C17": dict(
+        category="translation_validation",
+        text="RegistryFacts.tla states Shipped, OneCheckerPerGroup, DocsExact and MarksAgree over facts extracted from the working "
+             "tree (rule groups with their //doc lines, the live registry, the doc sub-command, docs/overview.md, digests); TLC "
+             "evaluates them. The two build transitions are replayed on the repository's own generators in a scratch copy: "
+             "precompile.go exactly as go:generate runs it, and cmd/makedocs; outputs are compared byte for byte with "
+             "checkers/rulesdata/rulesdata.go and docs/overview.md.",
+        design_ref="DESIGN.md section 6 C17",
+        note="The TLA+ part only states the equalities; the decision is the regeneration diff. Generators are trusted.",
+        technique="regeneration diff (translation validation) with TLA+-stated invariants over extracted facts",
+        engine="registryfacts"),
+})
+
 NOT_YET = "check not built yet (construction in progress; see DESIGN.md section 6)"
 NOT_APPLICABLE = {}
 
